@@ -6,7 +6,7 @@ use std::sync::Mutex;
 use serde::{Deserialize, Serialize};
 use serde_json::{json, Value};
 
-use crate::trace::{ReplayFile, Step, Trace, Violation};
+use crate::trace::{walk_past, ReplayFile, Step, Tolerated, Trace, Violation};
 use crate::util::{derive_seed, Rng};
 use crate::world::World;
 
@@ -87,6 +87,11 @@ pub fn run_generated<W: World>(prop: &str, mon: &str, seed: u64, run: u64, thoro
     let n = w.planned_steps();
     let mut steps = vec![];
     let mut viols = vec![];
+    let mut seen: Vec<Violation> = vec![];
+    let tolerate: Vec<Tolerated> = TOLERATE
+        .get()
+        .map(|l| l.iter().filter(|t| world_of(&t.property).contains(&W::NAME)).cloned().collect())
+        .unwrap_or_default();
     for _ in 0..n {
         // F2: a user retries — an earlier transaction is delivered again, unchanged
         let dup = rng.chance(1, 16);
@@ -102,7 +107,7 @@ pub fn run_generated<W: World>(prop: &str, mon: &str, seed: u64, run: u64, thoro
         };
         w.apply(&s, &mut viols);
         steps.push(s);
-        if !viols.is_empty() {
+        if !walk_past(&tolerate, &mut viols, &mut seen) {
             break;
         }
     }
@@ -110,7 +115,9 @@ pub fn run_generated<W: World>(prop: &str, mon: &str, seed: u64, run: u64, thoro
         let s = Step::Quiesce;
         w.apply(&s, &mut viols);
         steps.push(s);
+        walk_past(&tolerate, &mut viols, &mut seen);
     }
+    seen.extend(viols);
     let trace = Trace {
         property: prop.to_string(),
         world: W::NAME.to_string(),
@@ -118,21 +125,24 @@ pub fn run_generated<W: World>(prop: &str, mon: &str, seed: u64, run: u64, thoro
         run,
         config,
         steps,
+        tolerate,
     };
-    finish(w, trace, viols, prop)
+    finish(w, trace, seen, prop)
 }
 
 /// replay: a pure function of the trace file and the code (no PRNG)
 pub fn run_replay<W: World>(trace: &Trace, mon: &str) -> RunOutput {
     let mut w = W::build(&trace.config, mon);
     let mut viols = vec![];
+    let mut seen: Vec<Violation> = vec![];
     for s in &trace.steps {
         w.apply(s, &mut viols);
-        if !viols.is_empty() {
+        if !walk_past(&trace.tolerate, &mut viols, &mut seen) {
             break;
         }
     }
-    finish(w, trace.clone(), viols, &trace.property)
+    seen.extend(viols);
+    finish(w, trace.clone(), seen, &trace.property)
 }
 
 // ------------------------------------------------------------------------------------------
@@ -171,6 +181,9 @@ pub fn replay_in(trace: &Trace, mon: &str) -> RunOutput {
 
 // ------------------------------------------------------------------------------------------
 // known findings
+
+/// the listed findings, for `run_generated` (set once by the check command before any run starts)
+pub static TOLERATE: std::sync::OnceLock<Vec<Tolerated>> = std::sync::OnceLock::new();
 
 #[derive(Clone, Debug, Serialize, Deserialize)]
 pub struct KnownFinding {
